@@ -220,6 +220,10 @@ class World:
 
         sh.cut(r"^json_syntax::object::index_map::IndexMap::new$|^<json_syntax::object::index_map::IndexMap as std::default::Default>::default$", "im_new", ret=im_new)
 
+        # vectors of entries are tracked exactly
+        sh.cut(r"^std::vec::Vec::<json_syntax::object::Entry<.*>>::new$|^<std::vec::Vec<json_syntax::object::Entry<.*>> as std::default::Default>::default$", "vec_new",
+               ret=lambda it, st, c, a: st.new_obj(AVec((), "entries")))
+
         def im_dup(it, st, c, a):
             _, m = W.idx_of(st, a[0])
             return Conc(int(any(len(p) > 1 for _, p in m.m)))
